@@ -104,6 +104,7 @@ func decodeRow(r map[string]any) map[string]any {
 
 // RunSeq executes a sequential scenario on a fresh real instance.
 func RunSeq(sc SeqScenario) (evs []Ev, inconclusive string) {
+	registerBoom() // vboom(x): a user function that panics when x = 3 (scenarios with a "poison" value)
 	var gates []string
 	if sc.Hold != "" {
 		gates = []string{sc.Hold}
